@@ -439,7 +439,11 @@ func c07ReadOnlyPath(seed int64, path, file string) {
 	// (1) View transactions on the writable handle
 	for i := 0; i < 40; i++ {
 		h := g.History(i)
-		_ = x.DB.View(func(tx *redka.Tx) error {
+		view := x.DB.View
+		if i%2 == 1 {
+			view = func(f func(tx *redka.Tx) error) error { return x.DB.ViewContext(context.Background(), f) }
+		}
+		_ = view(func(tx *redka.Tx) error {
 			r := hxTx(tx)
 			for _, st := range h.Steps {
 				for _, op := range st.Ops {
